@@ -61,6 +61,16 @@ func ruleReduceDriver(c *Ctx, prop string) {
 					if cl, isCall := in.(*ssa.Call); isCall && driver != nil && cl.Common().StaticCallee() == driver && len(cl.Common().Args) == 3 && cl.Common().Args[2] == ssa.Value(fv) {
 						okUse = true
 					}
+					if cl, isCall := in.(*ssa.Call); isCall && !okUse && driver != nil {
+						// handed to an unexported helper that does nothing with it but hand it to ops.ReduceAxes
+						if h := cl.Common().StaticCallee(); h != nil && isLibFn(h) && inlineableHelper(h) {
+							for k, a := range cl.Common().Args {
+								if a == ssa.Value(fv) && c.paramOnlyToDriver(h, k, driver, 0) {
+									okUse = true
+								}
+							}
+						}
+					}
 					key := fmt.Sprintf("R34a:reduction-value:%s:%s", fname(f), fv.Name())
 					c.decide(okUse, "R34", key, c.pos(in.Pos()), "the reduction is handed to ops.ReduceAxes", "gorgonia's "+fv.Name()+" is taken as a function value outside a call of ops.ReduceAxes: it may be applied along an axis gorgonia reduces wrongly (any axis between the second and the last)")
 				}
@@ -613,7 +623,7 @@ func ruleBroadcastTable(c *Ctx, prop string) {
 		switch {
 		case bad != "":
 			c.violate("R36", key, badPos, bad)
-		case evaluated < cells*9/10:
+		case evaluated < cells:
 			c.undecided("R36", key, badPos, fmt.Sprintf("only %d of %d shape pairs could be followed to a single outcome: the helpers' factoring is not recognised by the interpreter", evaluated, cells))
 		default:
 			c.discharge("R36", key, badPos, fmt.Sprintf("%d ordered shape pairs (rank 0..%d, extents 1..4): compatible pairs yield the broadcast shape for both operands, incompatible pairs an error, Repeat only ever stretches an axis of extent 1, the sources keep their shapes", cells, maxRank))
@@ -673,6 +683,8 @@ func (c *Ctx) applyTableOverrides(from int) {
 			if j := strings.LastIndex(rest, ":"); j >= 0 {
 				table = c.tableCovered["R9f:"+rest[:j]]
 			}
+		case strings.HasPrefix(o.Key, "R9c:") && strings.HasSuffix(o.Key, ":activations-length"):
+			table = c.tableCovered["table:recurrent:"+strings.TrimSuffix(strings.TrimPrefix(o.Key, "R9c:"), ":activations-length")]
 		case strings.HasPrefix(o.Key, "R12:P"):
 			// R12:P<n>:<op>:<clause> and R12:P<n>:floor:<op>
 			parts := strings.Split(o.Key, ":")
@@ -682,6 +694,15 @@ func (c *Ctx) applyTableOverrides(from int) {
 						table = c.tableCovered["table:recurrent:"+nm]
 					}
 				}
+			}
+		case strings.HasPrefix(o.Key, "R20:keepdims:"), strings.HasPrefix(o.Key, "R9d:") && strings.HasSuffix(o.Key, ":axes-preserved"):
+			// the axes tables of ReduceMax / ReduceMin compare the axes entering the reduction and the kept shape
+			op := strings.TrimPrefix(o.Key, "R20:keepdims:")
+			if strings.HasPrefix(o.Key, "R9d:") {
+				op = strings.TrimSuffix(strings.TrimPrefix(o.Key, "R9d:"), ":axes-preserved")
+			}
+			if op == "ReduceMax" || op == "ReduceMin" {
+				table = c.tableCovered["R9f:"+op+".axes"]
 			}
 		case strings.HasPrefix(o.Key, "R7:softmax-kernel:"):
 			// the axis tables of Softmax and LogSoftmax watch for exactly this call (kind softmax-kernel)
@@ -699,4 +720,44 @@ func (c *Ctx) applyTableOverrides(from int) {
 		o.Status = StNote
 		o.Why = "structural pattern not recognised (" + o.Why + "); the clause is decided by the finite table " + table + ", which walked this code for every cell and found it right"
 	}
+}
+
+// paramOnlyToDriver: parameter k of the helper is used for nothing but the reduction argument of ops.ReduceAxes
+// (directly or through one more such helper).
+func (c *Ctx) paramOnlyToDriver(h *ssa.Function, k int, driver *ssa.Function, depth int) bool {
+	if k >= len(h.Params) || depth > 2 || len(h.Blocks) == 0 {
+		return false
+	}
+	p := h.Params[k]
+	n := 0
+	for _, r := range *p.Referrers() {
+		switch x := r.(type) {
+		case *ssa.DebugRef:
+		case *ssa.Call:
+			callee := x.Common().StaticCallee()
+			switch {
+			case callee == driver && len(x.Common().Args) == 3 && x.Common().Args[2] == ssa.Value(p) && x.Common().Args[0] != ssa.Value(p) && x.Common().Args[1] != ssa.Value(p):
+				n++
+			case callee != nil && isLibFn(callee) && inlineableHelper(callee):
+				ok := false
+				for j, a := range x.Common().Args {
+					if a == ssa.Value(p) {
+						if !c.paramOnlyToDriver(callee, j, driver, depth+1) {
+							return false
+						}
+						ok = true
+					}
+				}
+				if !ok {
+					return false
+				}
+				n++
+			default:
+				return false
+			}
+		default:
+			return false
+		}
+	}
+	return n > 0
 }
